@@ -127,6 +127,7 @@ func plainPath(n *node) bool {
 // C05
 
 func runC05(c *Ctx) {
+	closeWithBacklog(c)
 	bigBatches(c, "C05")
 	n := 40
 	if !c.Quick() {
